@@ -188,7 +188,13 @@ def unwrap(tree):
 
 
 def has_fault(tree):
-    return any(t[0] in WRAPPERS for t in subtrees(tree))
+    """does the formula contain a request that must be rejected?"""
+    return any(t[0] == "fault" or (t[0] == "recalc" and any(x[1] != "assign" for x in t[2]))
+               for t in subtrees(tree))
+
+
+def has_recalc(tree):
+    return any(t[0] == "recalc" for t in subtrees(tree))
 
 
 class Builder:
@@ -835,6 +841,8 @@ def judge_eval(pid, tree, defs_h, o, m=None):
     root = core[1] if core[0] == "node" else core[0]
     if has_fault(tree):
         root += "+rejected-request"
+    elif has_recalc(tree):
+        root += "+recalculated"
     base = {"input": pretty_tree(tree), "tree": tree}
     if o.get("faults"):
         base["requests_rejected_first"] = o["faults"]
